@@ -109,9 +109,9 @@ def run(cx):
     if h:
         calls = [shorten(h.term_call(t, 0)) for bi, c, t in prog.calls_of(h)]
         fed = [c for c in calls if re.search(r'hash\(|write|for_each', c)]
-        want = ['impls::hash(arg1.is_fqdn,arg2)', 'Iterator::for_each(Iterator::flatten(Name::iter(arg1)),closure:<Name as Hash>::hash::{closure#0})']
+        want = ['impls::hash(arg1.is_fqdn,arg2)', 'Iterator::for_each(Iterator::flatten(Name::iter(arg1)),closure:<Name as Hash>::hash::{closure@for_each#0})']
         cx.check('C04.T1', fed == want, h.path, 'calls', 'hash-inputs=is_fqdn+every-label-octet', str(fed))
-    hc = cx.fn('C04.T1', '<hickory_proto::rr::domain::name::Name as core::hash::Hash>::hash::{closure#0}')
+    hc = cx.fn('C04.T1', '<hickory_proto::rr::domain::name::Name as core::hash::Hash>::hash::{closure@for_each#0}')
     if hc:
         calls = [shorten(hc.term_call(t, 0)) for bi, c, t in prog.calls_of(hc)]
         cx.check('C04.T1', calls[-1:] == ['Hasher::write_u8(^arg2,num::to_ascii_lowercase(arg2))'] and len(calls) == 2, hc.path, 'calls', 'hash-octet-lowercased', str(calls))
